@@ -99,10 +99,10 @@ Proof.
 Qed.
 
 (* ---- the datapath after the swap computes exactly these integers *)
-Lemma add_core_bound x y : normal x -> normal y -> mag y <= mag x -> expo x - expo y < 32 ->
-  add_exact_normal x y -> add_spec x y (add_core x y).
+Lemma add_core_gen_bound ew x y : 0 <= ew -> normal x -> normal y -> mag y <= mag x -> expo x - expo y < 2 ^ ew ->
+  add_exact_normal x y -> add_spec x y (add_core_gen ew x y).
 Proof.
-  intros [Hx Hex] [Hy Hey] Hmag Hgap Hnorm.
+  intros Hew [Hx Hex] [Hy Hey] Hmag Hgap Hnorm.
   pose proof (frac_range x) as Hfx. pose proof (frac_range y) as Hfy.
   destruct (mag_order x y) as (A1 & A2 & _).
   assert (Hord1 : expo y <= expo x) by lia.
@@ -130,10 +130,10 @@ Proof.
   set (S := if sub then ma - mb' else ma + mb') in *.
   set (clz := 24 - Z.log2 S) in *.
   (* the model, wire by wire *)
-  assert (Hcore : add_core x y = pack (negative x) (ea - clz + 1) (S * 2 ^ clz / 2 - 2 ^ 23)).
-  { unfold add_core, add_core_gen. rewrite !fp_m_normal, !fp_e_expo, !fp_s_negative by (assumption || lia).
+  assert (Hcore : add_core_gen ew x y = pack (negative x) (ea - clz + 1) (S * 2 ^ clz / 2 - 2 ^ 23)).
+  { unfold add_core_gen. rewrite !fp_m_normal, !fp_e_expo, !fp_s_negative by (assumption || lia).
     fold ea eb ma mb sub. cbv zeta.
-    replace (sub_w 5 ea eb) with d by (unfold sub_w; symmetry; apply trunc_small; unfold d; lia).
+    replace (sub_w ew ea eb) with d by (unfold sub_w; symmetry; apply trunc_small; unfold d; lia).
     replace (shr_w 24 mb d) with mb'
       by (unfold shr_w; rewrite shiftr_div by (unfold d; lia); symmetry; apply trunc_small; unfold ma, mb' in *; lia).
     assert (HmrS : mux2 sub (add_w 25 ma mb') (sub_w 25 ma mb') = S).
@@ -157,9 +157,14 @@ Proof.
   - rewrite Hsum. destruct (negative x); destruct (Z.ltb_spec (-1 * (X * 2 ^ eb)) 0); destruct (Z.ltb_spec (1 * (X * 2 ^ eb)) 0); try reflexivity; lia.
   - rewrite sval_pack by lia. rewrite Hsum.
     replace (2 ^ 23 + (S * 2 ^ clz / 2 - 2 ^ 23)) with (S * 2 ^ clz / 2) by lia.
-    replace (Z.max ea eb) with ea by lia.
-    destruct (negative x); lia.
+    fold ea eb. replace (Z.max ea eb) with ea by lia.
+    set (OM := S * 2 ^ clz / 2 * 2 ^ (ea - clz + 1)) in *. set (EX := X * 2 ^ eb) in *.
+    clearbody OM EX. clear - Herr. destruct (negative x); lia.
 Qed.
+
+Lemma add_core_bound x y : normal x -> normal y -> mag y <= mag x -> expo x - expo y < 32 ->
+  add_exact_normal x y -> add_spec x y (add_core x y).
+Proof. intros. apply (add_core_gen_bound 5); try assumption; lia. Qed.
 
 (* ---- with the swap stage in front *)
 Lemma fpadd_partial_lemma a b : normal a -> normal b -> Z.abs (expo a - expo b) < 32 ->
@@ -174,4 +179,20 @@ Proof.
       unfold add_exact_normal in *. rewrite Z.add_comm. exact Hnorm. }
     unfold add_spec in *. rewrite (Z.add_comm (sval a) (sval b)), (Z.max_comm (expo a) (expo b)). exact Hsp.
   - assert (expo b <= expo a) by lia. apply add_core_bound; try assumption; lia.
+Qed.
+
+(* the same datapath with an 8-bit ediff wire meets the claim for EVERY pair of normal operands:
+   the defect is the width of that one wire *)
+Lemma fpadd_wide_total_lemma a b : normal a -> normal b -> add_exact_normal a b -> add_spec a b (fpadd_wide a b).
+Proof.
+  intros Ha Hb Hnorm. unfold fpadd_wide. rewrite add_swap_val by (apply Ha || apply Hb).
+  destruct (mag_order a b) as (A1 & _). destruct (mag_order b a) as (B1 & _).
+  pose proof (proj2 Ha). pose proof (proj2 Hb).
+  destruct (Z.ltb_spec (mag a) (mag b)) as [Hlt | Hge]; cbn [fst snd].
+  - assert (expo a <= expo b) by lia.
+    assert (Hsp : add_spec b a (add_core_gen 8 b a)).
+    { apply add_core_gen_bound; try assumption; try lia.
+      unfold add_exact_normal in *. rewrite Z.add_comm. exact Hnorm. }
+    unfold add_spec in *. rewrite (Z.add_comm (sval a) (sval b)), (Z.max_comm (expo a) (expo b)). exact Hsp.
+  - assert (expo b <= expo a) by lia. apply add_core_gen_bound; try assumption; lia.
 Qed.
